@@ -95,11 +95,25 @@ def run(ctx):
         ctx.ob('GUARDDOM', f'from_data returns a backend only if the antenna source\'s {cnt} equals the input recording\'s', fd,
                any(is_eq(c) for c in conds), {'path_condition_of_return': [pretty(c)[:140] for c in conds]}, node=rets[-1].node,
                construct=f'from_data: {cnt} of the source vs the input')
-    nb_st = [e for e in I.events if e.kind == 'store' and e.data.get('name') == 'num_bits' and e.owner == fd.short]
-    objs = sorted({ast.unparse(e.data['base_node']) for e in nb_st})
-    ctx.ob('AGREE', 'the complex requantiser and both of its component quantisers get the input bit depth', fd,
-           len(nb_st) == 3 and len(objs) == 3 and all(e.data['value'].key == T.mk_sub(RP, lift('num_bits')).key for e in nb_st),
-           {'stores': [e.text() for e in nb_st]}, node=(nb_st[0].node if nb_st else fd.node), construct='num_bits of requantizer / _r / _i')
+    # the requantiser handed to the new backend, and both of its component quantisers, carry the input's bit depth -- whether
+    # it is passed to the constructors or assigned afterwards: read off the object state when the backend is constructed
+    NI_Q = tuple(x for x in NI_FD if 'quantization' not in x)
+    rq_, Iq = ctx.run(fd, no_inline=NI_Q)
+    initq = [e for e in Iq.events if e.kind == 'call' and e.data.get('name') == B + '.__init__']
+    ctx.require(initq, 'from_data no longer constructs the backend')
+    rqobj = initq[0].data['bound'].get('requantizer')
+    rpq = [e for e in Iq.events if e.kind == 'call' and e.data.get('name') == RU + 'get_raw_params']
+    want_nb = T.mk_sub(rpq[0].data['ret'], lift('num_bits')) if rpq else NONE
+    got = {}
+    if rqobj is not None:
+        got['requantizer'] = Iq.heap.get((rqobj.key, 'num_bits'))
+        for part in ('quantizer_r', 'quantizer_i'):
+            po = Iq.heap.get((rqobj.key, part))
+            got[part] = Iq.heap.get((po.key, 'num_bits')) if po is not None else None
+    ok_nb = len(got) == 3 and all(v is not None and T.compare(v, want_nb)[0] == T.EQUAL for v in got.values())
+    ctx.ob('AGREE', 'the complex requantiser and both of its component quantisers get the input bit depth', fd, ok_nb,
+           {'num_bits': {k: (pretty(v)[:80] if v is not None else None) for k, v in got.items()}}, node=initq[0].node,
+           construct='num_bits of requantizer / _r / _i')
     for attr, want in (('input_file_stem', sym('input_file_stem')),
                        ('input_num_blocks', T.mk_call(RU + 'get_total_blocks', [sym('input_file_stem')]))):
         st = [e for e in I.events if e.kind == 'store' and e.data.get('name') == attr and e.owner == fd.short]
